@@ -44,5 +44,6 @@ Example rejects_normalizing_export :
   query_pure [("X.to_g2o", [ECallMut "self.estimate" "normalize"])] "X.to_g2o" = false /\
   pose_op_pure [("P.__iadd__", [EWriteInto "self"])] "P.__iadd__" = false /\
   query_pure [("G.calc_chi2", [ECall "helper"]); ("E.helper", [EWriteAttr "self.vertices[*]" "pose"])] "G.calc_chi2" = false /\
-  forallb allowed_optimize [EWriteAttr "self._edges[*]" "information"] = false.
+  forallb allowed_optimize [EWriteAttr "self._edges[*]" "information"] = false /\
+  forallb allowed_optimize [EWriteAttr "self._vertices[*]" "fixed"] = false.
 Proof. repeat split; vm_compute; reflexivity. Qed.
